@@ -17,6 +17,23 @@ function are executed with an instrumented body and compared with
               an interleaved order, some repeatedly, some with other data:
               every single call must still be what the reference says for
               that function and that data, and no other function's body runs.
+
+Third round (seeded mutations C17-mut5 / C17-mut6):
+* container outputs of check_output / check_io have 1-4 elements with the
+  designated frame at any position; every integer getter is also written as
+  the equivalent negative index (out[-1] = the last element) - one more
+  "equivalent designation"; dict outputs use several keys incl. the falsy "".
+* check_types: pandas frames remember the schema they were validated against
+  last and check_types skips a frame that carries *the same exact schema*.
+  Frames now also arrive carrying the schema of a SIBLING model - same
+  fields, 1-2 other rules (Config.strict / ordered / unique / coerce /
+  add_missing_columns / unique_column_names, a dataframe check, a registered
+  Config check, a field's nullable / unique / check, or only name / title /
+  description / metadata) - as the argument, among *args / **kwargs, as the
+  frame the body returns, and as the validated argument returned under a
+  sibling return annotation.  The data is built to pass both models and then
+  moved against a rule only the annotation's model has.  A sibling schema is
+  a different schema: the reference validates in full.
 """
 from __future__ import annotations
 
@@ -54,10 +71,20 @@ def new_run():
         "inplace=True (frame-level dtype coercion, add_missing_columns with "
         "the column absent, dataframe-level parser, SeriesSchema coercion, "
         "every polars schema), body plan return-input / return-new / "
-        "container / raise) x 6-10 equivalent variants (designation none / "
-        "int / str, check_io also written as a stack of check_input / "
-        "check_output, binding function / method / classmethod / "
-        "staticmethod, call shape, sync / async); for a quarter of the "
+        "container / raise; container outputs of 1-4 elements with the "
+        "designated frame at any position, dict keys incl. the falsy ''; "
+        "check_types frames arriving fresh / carrying on their .pandera "
+        "accessor the annotation's schema / an unrelated schema / the schema "
+        "of a sibling model = same fields and 1-2 other frame-level or "
+        "field-level rules or only other metadata, as argument, among *args "
+        "/ **kwargs, as the frame the body returns, or as the validated "
+        "argument returned under a sibling return annotation; data for "
+        "sibling pairs passes both models and is then moved against a rule "
+        "only the annotation's model has) x 6-10 equivalent variants "
+        "(designation none / int / str, integer output getters also as the "
+        "equivalent negative index, check_io also written as a stack of "
+        "check_input / check_output, binding function / method / classmethod "
+        "/ staticmethod, call shape, sync / async); for a quarter of the "
         "scenarios additionally a call sequence: 2-3 functions decorated "
         "with one decorator object (or one each), every function called at "
         "least once in shuffled order, some again, some with other data, "
@@ -99,7 +126,7 @@ def gen_scenario(rng):
     def validity():
         return gen_validity(rng, options)
 
-    def add_frame(key, series=False, model=False, want=None):
+    def add_frame(key, series=False, model=False, want=None, sibling=False):
         if model:
             prog = P.gen_model_prog(rng, backend)
             flat = P16.resolve(prog, 0)
@@ -109,6 +136,15 @@ def gen_scenario(rng):
                              all(t in cols for t in c["targets"])]
             cls["df_checks"] = [c for c in cls["df_checks"]
                                 if c["col"] is None or c["col"] in cols]
+            if sibling:
+                # the frame will arrive carrying the schema of a model with
+                # the same fields and 1-2 other rules; which of the two is
+                # the annotation and which was used earlier is arbitrary
+                sib, kinds = P.gen_sibling_prog(rng, prog)
+                prog, sib, swapped = P.orient(rng, prog, sib)
+                scn["models"][key + "_carrier"] = sib
+                scn["sibling"] = {"kinds": kinds, "annotation_is":
+                                  "the-changed-model" if swapped else "the-original"}
             scn["models"][key] = prog
             spec = P16.gen_spec_of(P16.resolve(prog, 0))
         else:
@@ -135,7 +171,14 @@ def gen_scenario(rng):
     scn["parse_heavy"] = parse_heavy
     if parse_heavy and rng.random() < 0.5:
         options["inplace"] = True
-    add_frame("df", series=rng.random() < 0.12 and not is_ct, model=is_ct)
+    # check_types: the state the argument frame arrives in (pandas frames
+    # remember the schema they were validated against last)
+    ct_state = "fresh"
+    if is_ct and backend == "pandas" and rng.random() < 0.45:
+        ct_state = rng.choice(["carry_equal"] * 2 + ["carry_other"] * 2 +
+                              ["carry_stale"] + ["carry_sibling"] * 4)
+    add_frame("df", series=rng.random() < 0.12 and not is_ct, model=is_ct,
+              sibling=ct_state == "carry_sibling")
     values["df"] = ("frame", "df", "fresh")
     scn["designated"] = ["df"] if deco != "check_output" else []
     if "other" in pnames:
@@ -145,6 +188,17 @@ def gen_scenario(rng):
             scn["designated"].append("other")
         else:
             values["other"] = ("scalar", None)
+    def star_state(key):
+        """frames collected by *args / **kwargs annotated like ``df``: may
+        carry the sibling model's schema as well"""
+        if ct_state != "carry_sibling" or rng.random() < 0.5:
+            return "fresh"
+        scn["tables"][key], _ = P.sibling_table(
+            rng, P16.resolve(scn["models"]["df"], 0),
+            P16.resolve(scn["models"]["df_carrier"], 0),
+            scn["specs"]["df"], options)
+        return "carry_sibling"
+
     if "rest" in pnames:
         n = rng.choice([0, 1, 1, 2])
         if is_ct and rng.random() < 0.4 and n:
@@ -155,7 +209,7 @@ def gen_scenario(rng):
                 scn["specs"][key] = scn["specs"]["df"]
                 t, note = P.gen_table_for(rng, scn["specs"]["df"], options, validity())
                 scn["tables"][key] = t
-                vals.append(("frame", key, "fresh"))
+                vals.append(("frame", key, star_state(key)))
             values["rest"] = vals
             scn["designated"].append("rest")
         else:
@@ -173,7 +227,7 @@ def gen_scenario(rng):
                 scn["specs"][key] = scn["specs"]["df"]
                 t, note = P.gen_table_for(rng, scn["specs"]["df"], options, validity())
                 scn["tables"][key] = t
-                d[k] = ("frame", key, "fresh")
+                d[k] = ("frame", key, star_state(key))
             values["kw"] = d
             scn["designated"].append("kw")
         else:
@@ -188,8 +242,23 @@ def gen_scenario(rng):
                 ["bare", "bare", "tuple", "list", "dict"] +
                 (["tuple2"] if deco == "check_io" else []))
             plan["shape"] = shape
+            plan.update(P.gen_out_layout(rng, shape))
             plan["source"] = rng.choice(["input", "table"])
             out = {"shape": shape, "same_as_df": plan["source"] == "input"}
+            if is_ct and backend == "pandas" and plan["source"] == "input" \
+                    and ct_state in ("fresh", "carry_other") and rng.random() < 0.35:
+                # f(df: DataFrame[A]) -> DataFrame[R] returning its argument,
+                # R a model with A's fields and 1-2 other rules: the frame
+                # reaches the return check carrying A's schema
+                sib, kinds = P.gen_sibling_prog(rng, scn["models"]["df"])
+                if not P.extra_rules(P16.resolve(sib, 0),
+                                     P16.resolve(scn["models"]["df"], 0)):
+                    # once more: mostly a return model with a rule on top
+                    sib, kinds = P.gen_sibling_prog(rng, scn["models"]["df"])
+                scn["models"]["out"] = sib
+                scn["specs"]["out"] = P16.gen_spec_of(P16.resolve(sib, 0))
+                out["ret_key"] = "out"
+                scn["ret_sibling"] = {"kinds": kinds}
             if plan["source"] == "table" or shape == "tuple2":
                 if is_ct:
                     if rng.random() < 0.5:
@@ -199,6 +268,29 @@ def gen_scenario(rng):
                         scn["tables"]["out"] = t
                     else:
                         add_frame("out", model=True)
+                    if backend == "pandas" and rng.random() < 0.35:
+                        # the body returns a frame it validated itself (or
+                        # got from another decorated function): against the
+                        # model of the return annotation, or against one
+                        # with the same fields and 1-2 other rules
+                        plan["out_carry"] = rng.choice(["equal", "sibling", "sibling"])
+                        if plan["out_carry"] == "sibling":
+                            sib, kinds = P.gen_sibling_prog(rng, scn["models"]["out"])
+                            scn["models"]["out"], sib, swapped = P.orient(
+                                rng, scn["models"]["out"], sib)
+                            if swapped:
+                                # the changed model is the annotation's
+                                scn["specs"]["out"] = P16.gen_spec_of(
+                                    P16.resolve(scn["models"]["out"], 0))
+                            scn["models"]["out_carrier"] = sib
+                            scn["out_sibling"] = {"kinds": kinds}
+                            scn["tables"]["out"], what = P.sibling_table(
+                                rng, P16.resolve(scn["models"]["out"], 0),
+                                P16.resolve(sib, 0), scn["specs"]["out"], options)
+                            scn["out_sibling"]["table"] = what
+                        else:
+                            scn["tables"]["out"], _ = P.gen_table_for(
+                                rng, scn["specs"]["out"], options, "valid")
                 else:
                     add_frame("out")
                     if shape == "tuple2":
@@ -225,6 +317,7 @@ def gen_scenario(rng):
             scn["out"] = out
     elif rng.random() < 0.3:
         plan["shape"] = rng.choice(["scalar", "tuple", "dict"])
+        plan.update(P.gen_out_layout(rng, plan["shape"]))
     if is_ct:
         r = rng.random()
         scn["df_annotation"] = ("plain" if r < 0.6 else "optional" if r < 0.8
@@ -239,17 +332,33 @@ def gen_scenario(rng):
             # inplace=True what the second member sees is not settled
             options["inplace"] = False
             add_frame("df_alt", model=True)
-            if rng.random() < 0.4:
+            if rng.random() < 0.4 and ct_state != "carry_sibling":
                 # the argument conforms to the second member instead
                 scn["tables"]["df"] = scn["tables"]["df_alt"]
-        if backend == "pandas" and values["df"][0] == "frame" and rng.random() < 0.3:
-            values["df"] = ("frame", "df", rng.choice(
-                ["carry_equal", "carry_equal", "carry_other", "carry_other",
-                 "carry_stale"]))
-            if values["df"][2] != "carry_other" and scn["df_annotation"] != "union":
+        if ct_state != "fresh" and values["df"][0] == "frame":
+            values["df"] = ("frame", "df", ct_state)
+            if ct_state == "carry_sibling":
+                # accepted by the carried model, (mostly) against a rule the
+                # annotation's model has on top
+                scn["tables"]["df"], what = P.sibling_table(
+                    rng, P16.resolve(scn["models"]["df"], 0),
+                    P16.resolve(scn["models"]["df_carrier"], 0),
+                    scn["specs"]["df"], options)
+                scn["sibling"]["table"] = what
+            elif ct_state in ("carry_equal", "carry_stale") \
+                    and scn["df_annotation"] != "union":
                 # only a frame that validates can carry its schema
                 scn["tables"]["df"], _ = P.gen_table_for(
                     rng, scn["specs"]["df"], options, "valid")
+        if scn.get("ret_sibling") and values["df"][0] == "frame" \
+                and scn["df_annotation"] != "union" and scn["out"] \
+                and scn["out"].get("ret_key") and plan["source"] == "input":
+            # valid for the model of the return annotation, then (mostly)
+            # against a rule it has on top of the input annotation's
+            scn["tables"]["df"], what = P.sibling_table(
+                rng, P16.resolve(scn["models"]["out"], 0),
+                P16.resolve(scn["models"]["df"], 0), scn["specs"]["out"], options)
+            scn["ret_sibling"]["table"] = what
         scn["return_annotated"] = scn["out"] is not None
     scn["plan"], scn["values"] = plan, values
     return scn
@@ -303,6 +412,11 @@ def gen_variants(rng, scn):
                 if scn["out"]["shape"] != "bare" else rng.choice(["schema", "tuple", "list"])
             if scn["out"]["shape"] == "tuple2":
                 v["out_form"] = "list"
+        if scn["deco"] in ("check_output", "check_io") and scn["out"] \
+                and scn["out"]["shape"] in ("tuple", "list", "tuple2"):
+            # out[i] and out[i - len(out)] designate the same element
+            v["out_neg"] = [rng.random() < 0.5 for _ in
+                            P.out_getters(scn["plan"])]
         if scn["deco"] == "check_io" and rng.random() < 0.25:
             # the same checks written as a stack of check_input / check_output
             v["io_form"] = "stacked"
@@ -334,6 +448,7 @@ class World:
             self.models[key] = self.models[same[0]] if same else \
                 P16.build_models(prog)[0]
         self._carrier = None
+        self.carry_failed = self.out_carry_failed = False
 
     def schema(self, key):
         if key in self.models:
@@ -354,9 +469,10 @@ class World:
             return None
         _, key, state = vs
         obj = self.data(key)
+        mkey = key if key in self.models else "df"   # *args / **kwargs frames
         if state == "carry_equal" or state == "carry_stale":
             try:
-                obj = self.models[key].validate(obj)
+                obj = self.models[mkey].validate(obj)
             except Exception:
                 self.carry_failed = True
                 self.frames.append((key, obj))
@@ -367,6 +483,15 @@ class World:
                 req = [c for c in obj.columns]
                 if req:
                     del obj[req[0]]
+        elif state == "carry_sibling":
+            try:
+                obj = self.models[mkey + "_carrier"].validate(obj)
+            except Exception:
+                self.carry_failed = True
+                self.frames.append((key, obj))
+                return obj
+            if reference_side:
+                obj = obj.copy()
         elif state == "carry_other":
             import pandera as pa
             other = type("Anything", (pa.DataFrameModel,),
@@ -377,8 +502,19 @@ class World:
         self.frames.append((key, obj))
         return obj
 
-    def out_factory(self, key):
-        return self.data(key)
+    def out_factory(self, key, reference_side=False):
+        obj = self.data(key)
+        carry = self.scn["plan"].get("out_carry") if key == "out" else None
+        if carry and self.backend == "pandas":
+            model = self.models["out" if carry == "equal" else "out_carrier"]
+            try:
+                obj = model.validate(obj)
+            except Exception:
+                self.out_carry_failed = True
+                return obj
+            if reference_side:
+                obj = obj.copy()            # same content, no accessor schema
+        return obj
 
     def cleanup(self):
         try:
@@ -413,10 +549,15 @@ def annotations_for(scn, world):
     if scn.get("kw_annotated"):
         ann["kw"] = A
     if scn.get("return_annotated"):
-        key = "df" if scn["out"]["same_as_df"] else "out"
-        ann["return"] = DataFrame[world.models[key]]
+        ann["return"] = DataFrame[world.models[_ret_key(scn)]]
     ann.setdefault("x", int)
     return ann
+
+
+def _ret_key(scn):
+    """check_types: the model of the return annotation"""
+    return scn["out"].get("ret_key") or (
+        "df" if scn["out"]["same_as_df"] else "out")
 
 
 def make_decorator(scn, var, world):
@@ -472,7 +613,7 @@ def _out_specs(scn, var):
         return []
     shape = out["shape"]
     key = "df" if out["same_as_df"] else "out"
-    getters = P.OUT_GETTERS[shape]
+    getters = P.out_getters(scn["plan"], var.get("out_neg") or ())
     specs = []
     for j, g in enumerate(getters):
         k = key
@@ -498,7 +639,8 @@ def execute(scn, var, reference_side, options=None):
     params = P.TEMPLATES[scn["template"]]
     first = {"method": "self", "classmethod": "cls"}.get(var["binding"])
     rec = {"calls": [], "first": []}
-    body = P.make_body(rec, scn["plan"], world.out_factory)
+    body = P.make_body(rec, scn["plan"],
+                       lambda k: world.out_factory(k, reference_side))
     ann = annotations_for(scn, world) if scn["deco"] == "check_types" else None
     fn = P.make_fn(params, first, var["async"], body, ann)
 
@@ -521,8 +663,7 @@ def execute(scn, var, reference_side, options=None):
             in_specs = _ct_in_specs(scn, world, obs)
             outs = []
             if scn.get("return_annotated"):
-                key = "df" if scn["out"]["same_as_df"] else "out"
-                outs = [(None, lambda k=key: world.schema(k), True)]
+                outs = [(None, lambda k=_ret_key(scn): world.schema(k), True)]
         else:
             if scn["deco"] in ("check_input", "check_io"):
                 in_specs = [(d, P.schema_validator(lambda d=d: world.schema(d)))
@@ -569,6 +710,7 @@ def execute(scn, var, reference_side, options=None):
     obs["after"] = sorted(((k, S.snap(o)) for k, o in world.frames),
                           key=lambda kv: kv[0])
     obs["carry_failed"] = world.carry_failed
+    obs["out_carry_failed"] = world.out_carry_failed
     world.cleanup()
     return obs
 
@@ -634,7 +776,7 @@ def gen_sequence(rng, scn, variants):
     for j in range(rng.choice([2, 2, 3])):
         v = copy.deepcopy(base if j == 0 else rng.choice(variants))
         # one decorator object: the designation is the decorator's
-        for k in ("designation", "getter", "out_form", "io_form"):
+        for k in ("designation", "getter", "out_form", "io_form", "out_neg"):
             if k in base:
                 v[k] = base[k]
             else:
@@ -658,7 +800,21 @@ def gen_sequence(rng, scn, variants):
                 and scn["values"]["df"][2] in ("carry_equal", "carry_stale") \
                 and scn.get("df_annotation") != "union":
             want = "valid"                 # only a valid frame carries its schema
+        if key == "out" and scn["plan"].get("out_carry") == "equal":
+            want = "valid"
         alt[key], _ = P.gen_table_for(rng, scn["specs"][key], scn["options"], want)
+        pair = None
+        if key == "df" and scn["values"]["df"] == ("frame", "df", "carry_sibling"):
+            pair = ("df", "df_carrier", "df")
+        elif key == "df" and scn.get("ret_sibling", {}).get("table"):
+            pair = ("out", "df", "out")
+        if key == "out" and scn["plan"].get("out_carry") == "sibling":
+            pair = ("out", "out_carrier", "out")
+        if pair:
+            alt[key], _ = P.sibling_table(
+                rng, P16.resolve(scn["models"][pair[0]], 0),
+                P16.resolve(scn["models"][pair[1]], 0),
+                scn["specs"][pair[2]], scn["options"])
     return {"shared": rng.random() < 0.7, "fns": fns, "steps": steps,
             "tables_alt": alt}
 
@@ -716,6 +872,7 @@ def execute_sequence(scn, seq):
         var, entry = seq["fns"][i], fns[i]
         world.scn = step_scenario(scn, seq, var, alt)
         world.frames, world.carry_failed = [], False
+        world.out_carry_failed = False
         before = [len(e["rec"]["calls"]) for e in fns]
         obs = {}
         if "decoration_error" in entry:
@@ -749,6 +906,7 @@ def execute_sequence(scn, seq):
         obs["after"] = sorted(((k, S.snap(o)) for k, o in world.frames),
                               key=lambda kv: kv[0])
         obs["carry_failed"] = world.carry_failed
+        obs["out_carry_failed"] = world.out_carry_failed
         observations.append(obs)
     world.cleanup()
     return observations
@@ -814,6 +972,9 @@ def features(scn, var):
         "method_one_arg_short": var["binding"] in ("method", "classmethod")
         and nargs == nparams - 1,
         "template": scn["template"],
+        "out_getters": [g for _, g, _ in _out_specs(scn, var)
+                        if not callable(g)]
+        if scn["deco"] in ("check_output", "check_io") else [],
     }
 
 
@@ -832,6 +993,16 @@ def coverage_classes(scn, f):
             out.append("input-getter:method-called-one-arg-short")
         if f["designation"] in ("str", "-") and nrest and not f["df_by_keyword"]:
             out.append("str-getter:positional-call-with-varargs")
+    for g in f["out_getters"]:
+        shape = scn["out"]["shape"].rstrip("2")
+        if isinstance(g, int) and g < 0:
+            out.append("output-getter:negative-index:" + shape)
+            if g == -1:
+                out.append("output-getter:minus-one-the-last-element:" + shape)
+        if isinstance(g, int) and g > 0 and g == scn["plan"].get("len", 2) - 1:
+            out.append("output-getter:last-element-by-positive-index:" + shape)
+        if g is not None and not g:
+            out.append("output-getter:falsy-but-set:%r" % (g,))
     if f["deco"] == "check_types":
         if f["has_varpos"] and nrest == 1:
             out.append("check_types:exactly-one-star-arg")
@@ -1053,6 +1224,45 @@ def judge(run, scn, var, ref, act, f, extra=None):
             run.count("accessor:equal-schema-valid-frame:judged")
         elif st == "carry_other":
             run.count("accessor:different-schema:judged")
+        elif st == "carry_sibling":
+            # same fields, 1-2 other rules: a different schema all the same
+            run.count("accessor:sibling-schema:judged")
+            for k in scn["sibling"]["kinds"]:
+                run.count("accessor:sibling-schema:differs-in:" + k)
+            if ref["called"] is False:
+                run.count("class:accessor-sibling:annotation-rejects-the-frame-"
+                          "the-carried-schema-accepted")
+            elif ref["called"] and ref["rec"]["calls"] and (
+                    "frame", dict(ref["after"]).get("df")) != \
+                    ref["rec"]["calls"][0].get("df"):
+                run.count("class:accessor-sibling:annotation-parses-the-frame-"
+                          "the-carried-schema-accepted")
+    if scn["deco"] == "check_types" and scn.get("return_annotated") \
+            and ref["called"] and not scn["plan"]["raise"]:
+        rejected = bool(ref["outcomes"]) and ref["outcomes"][0][0] == "raise"
+        if scn["out"].get("ret_key") and scn["values"]["df"][0] == "frame":
+            run.count("class:return-annotation-sibling-of-input-annotation:"
+                      "body-returns-its-argument:judged")
+            if rejected:
+                run.count("class:return-annotation-sibling-of-input-annotation:"
+                          "return-check-rejects-the-accepted-argument")
+        carry = scn["plan"].get("out_carry")
+        if carry and scn["plan"]["source"] == "table" and not (
+                ref.get("out_carry_failed") or act.get("out_carry_failed")):
+            run.count("class:returned-frame-carries-%s-schema:judged" % carry)
+            if carry == "sibling":
+                for k in scn["out_sibling"]["kinds"]:
+                    run.count("class:returned-frame-carries-sibling-schema:"
+                              "differs-in:" + k)
+                if rejected:
+                    run.count("class:returned-frame-carries-sibling-schema:"
+                              "return-check-rejects-it")
+    if scn["deco"] in ("check_output", "check_io") and ref["called"] \
+            and ref["outcomes"] and ref["outcomes"][0][0] == "return":
+        for g in f["out_getters"]:
+            if isinstance(g, int) and g < 0:
+                run.count("class:output-getter:negative-index:validated-object-"
+                          "put-back:" + scn["out"]["shape"].rstrip("2"))
     # validate() handed back another object than it was given: what reaches
     # the body / the caller must be that object
     if ref.get("in_new_object"):
@@ -1128,6 +1338,19 @@ def one_case(run, rng, scn=None, variants=None, sequence=None):
         run.count("check_types:annotation:" + scn.get("df_annotation", "plain"))
         if scn["values"]["df"][0] == "frame":
             run.count("check_types:frame_state:" + scn["values"]["df"][2])
+        stars = list(scn["values"].get("rest") or []) + \
+            list((scn["values"].get("kw") or {}).values())
+        if any(v[0] == "frame" and v[2] == "carry_sibling" for v in stars):
+            run.count("check_types:star-args-frame-carries-sibling-schema")
+        if scn.get("ret_sibling", {}).get("table"):
+            for w in scn["ret_sibling"]["table"]:
+                run.count("sibling_table:return:" + w.split(":")[0])
+        if scn.get("sibling", {}).get("table"):
+            for w in scn["sibling"]["table"]:
+                run.count("sibling_table:input:" + w.split(":")[0])
+        if scn.get("out_sibling", {}).get("table"):
+            for w in scn["out_sibling"]["table"]:
+                run.count("sibling_table:returned-frame:" + w.split(":")[0])
     groups = {}
     for vi, var in enumerate(variants):
         f = features(scn, var)
@@ -1185,8 +1408,8 @@ def run(run, ctx):
 
 
 # about 1/4 of what the quick tier observes on the repaired tree (smallest of
-# seeds 0, 1, 2, 3, 12345 for the rare classes); the thorough tier scales with its
-# number of scenarios
+# seeds 0, 1, 2, 3, 12345); the thorough tier scales with its number of
+# scenarios
 FLOORS_QUICK = {
     "outcome_compared": 3900, "received_objects_compared": 2600,
     "caller_frames_after_compared": 3500,
@@ -1240,6 +1463,36 @@ FLOORS_QUICK = {
     "class:one-decorator-object:call-of-another-function-than-the-first-called:check_output": 26,
     "class:one-decorator-object:call-of-another-function-than-the-first-called:check_io": 26,
     "class:one-decorator-object:call-of-another-function-than-the-first-called:check_types": 57,
+    # third round (seeded mutations): negative integer output getters; frames
+    # that carry the schema of a sibling model (same fields, other rules)
+    "class:output-getter:negative-index:tuple": 170,
+    "class:output-getter:negative-index:list": 88,
+    "class:output-getter:minus-one-the-last-element:tuple": 77,
+    "class:output-getter:minus-one-the-last-element:list": 42,
+    "class:output-getter:last-element-by-positive-index:tuple": 69,
+    "class:output-getter:negative-index:validated-object-put-back:tuple": 66,
+    "class:output-getter:negative-index:validated-object-put-back:list": 51,
+    "class:output-getter:falsy-but-set:0": 136,
+    "class:output-getter:falsy-but-set:''": 18,
+    "accessor:sibling-schema:judged": 150,
+    "accessor:sibling-schema:differs-in:strict": 25,
+    "accessor:sibling-schema:differs-in:df_check": 21,
+    "accessor:sibling-schema:differs-in:extras": 17,
+    "accessor:sibling-schema:differs-in:unique": 13,
+    "accessor:sibling-schema:differs-in:unique_column_names": 13,
+    "accessor:sibling-schema:differs-in:ordered": 4,
+    "accessor:sibling-schema:differs-in:coerce": 12,
+    "accessor:sibling-schema:differs-in:add_missing_columns": 12,
+    "accessor:sibling-schema:differs-in:field": 24,
+    "accessor:sibling-schema:differs-in:meta": 9,
+    "class:accessor-sibling:annotation-rejects-the-frame-the-carried-schema-accepted": 48,
+    "class:accessor-sibling:annotation-parses-the-frame-the-carried-schema-accepted": 3,
+    "check_types:star-args-frame-carries-sibling-schema": 1,
+    "class:return-annotation-sibling-of-input-annotation:body-returns-its-argument:judged": 56,
+    "class:return-annotation-sibling-of-input-annotation:return-check-rejects-the-accepted-argument": 22,
+    "class:returned-frame-carries-equal-schema:judged": 19,
+    "class:returned-frame-carries-sibling-schema:judged": 46,
+    "class:returned-frame-carries-sibling-schema:return-check-rejects-it": 14,
 }
 
 
